@@ -251,6 +251,12 @@ m("c09-svf-update-version-cache", "C09", "spatial/nonrigid.py",
         self._uver = ver
         super().update()""")
 
+m("c18-revert-nifti-pair-unlink", "C18", "utils/imageio/nifti.py",
+  """            if name.lower().endswith(suffix):
+                local_path.with_name(name[: -len(suffix)] + paired).unlink(missing_ok=True)
+                break""", """            if name.lower().endswith(suffix):
+                break""")
+
 
 def run_mutant(spec, runs: int, budget: int):
     mid, prop, rel, old, new = spec
